@@ -46,6 +46,22 @@ extern ssize_t mpt_connection_push(MPT_STRUCT(connection) *con, size_t len, cons
 	else if (!(srm = (void *) con->out.buf._buf)) {
 		return MPT_ERROR(BadArgument);
 	}
+	/* drop message in progress on stream backend */
+	if (srm && len && !src) {
+		ret = 0;
+		if (mpt_stream_flags(&srm->_info) & MPT_STREAMFLAG(MesgActive)) {
+			ret = mpt_stream_push(srm, len, 0);
+		}
+		/* message (and its pending reply) is done with when it could be removed */
+		if (ret >= 0) {
+			con->out.state &= ~MPT_OUTFLAG(Active);
+			if (con->cid) {
+				deregisterCommand(con);
+			}
+			ret = 0;
+		}
+		return ret;
+	}
 	/* new message start */
 	if (!(con->out.state & MPT_OUTFLAG(Active))
 	    && con->out._idlen) {
